@@ -17,7 +17,7 @@ func init() {
 			"D3 directories never reach the dispatch, non-regular files only when symlink reading is on and the mode is a symlink; D4 the directory-skip predicate consults each of the five skip rules on every path that answers 'do not skip', each rule's match leads to 'skip', the skip list is an exact-path lookup, and SkipDir is returned iff the predicate holds; " +
 			"D5 files matched by gitignore patterns never reach the dispatch, and the pattern stack stays balanced (every directory that returns nil/SkipDir pushed exactly one set, the pop removes exactly one under the same conditions); D6 every package of an Extract result is attributed to the extractor that produced it and appended to the inventory whenever the result is non-empty (also when Extract returned an error), Scan merges filesystem and standalone inventories; " +
 			"D7 the walker calls the callback before listing a directory, recurses into every successfully read entry, leaves the loop only on EOF / callback error / SkipDir, and never originates SkipDir itself; D8 whole-tree and explicit-path walks use the same callbacks, explicit directories get their parents' gitignore patterns. " +
-			"NOT decided: correctness of glob/regex/gitignore matching, path-prefix stripping, set equality of inventories, FileRequired predicates (values).",
+			"Added in round 3: the skip predicate, as a boolean function of its tests, equals the disjunction of the five configured skip rules (decision table); the decisions and early exits that keep the current file from an extractor are the audited ones; the size-limit rule of C10 is shared. NOT decided: correctness of glob/regex/gitignore matching, path-prefix stripping, set equality of inventories, FileRequired predicates (values).",
 		Run: runC01,
 		Controls: []Mutant{
 			{Name: "negate-filerequired", File: "extractor/filesystem/filesystem.go", Old: "if ex.FileRequired(wc.fileAPI) {", New: "if !ex.FileRequired(wc.fileAPI) {", Rule: "D1-dispatch", Site: "handleFile"},
